@@ -319,6 +319,19 @@ func checkCase(c *Case) (err error) {
 			}
 		}
 	}
+	// a registered route with a middleware of its own whose handler serves another registered route in its place (an alias kept
+	// for old clients), through Route.Handle or Route.HandleMiddleware, on its own context - a context matched to another pattern
+	if _, err := f.Handle("GET", "/as/{k}", func(c fox.Context) {
+		if rte := c.Fox().Route("GET", c.Request().Header.Get("X-As-Target")); rte != nil {
+			if c.Request().Header.Get("X-As-Mw") != "" {
+				rte.HandleMiddleware(c)
+			} else {
+				rte.Handle(c)
+			}
+		}
+	}, fox.WithMiddleware(tracer("as"))); err != nil {
+		return fmt.Errorf("%s%v", desc, err)
+	}
 	// route handlers: globals with RouteHandler scope, then the route's own, each once, then the handler
 	for i, rc := range c.Routes {
 		rids, hid := ids("m", i, rc.N), fmt.Sprintf("H:r%d", i)
@@ -342,6 +355,19 @@ func checkCase(c *Case) (err error) {
 			f.ServeHTTP(httptest.NewRecorder(), areq)
 			if err := expectTrace(*atr, wantAlias); err != nil {
 				return fmt.Errorf("%sroute %d (%+v) run from a no-route middleware through Route.HandleMiddleware (Route.Handle: %v) on the no-route context: %w", desc, i, rc, bare, err)
+			}
+		}
+		for _, withMw := range []bool{false, true} {
+			areq, atr := request("GET", fmt.Sprintf("/as/%d", i))
+			areq.Header.Set("X-As-Target", routePattern(i))
+			wantAs := append(append(c.globalsFor(fox.RouteHandler), "as"), hid)
+			if withMw {
+				areq.Header.Set("X-As-Mw", "1")
+				wantAs = append(append(append(c.globalsFor(fox.RouteHandler), "as"), rids...), hid)
+			}
+			f.ServeHTTP(httptest.NewRecorder(), areq)
+			if err := expectTrace(*atr, wantAs); err != nil {
+				return fmt.Errorf("%sroute %d (%+v) run from the handler of route /as/{k} (own middleware \"as\") through Route.Handle (Route.HandleMiddleware: %v): %w", desc, i, rc, withMw, err)
 			}
 		}
 		// Route.Handle: bare handler; Route.HandleMiddleware: only the route-specific chain
